@@ -269,10 +269,17 @@ def _ret_value0(run: Run, act: list, ev: Any) -> Any:
         return None
     if what == "bad":
         return NotAnEvent()
+    det = run.spec.get("det_uids")
+    base = getattr(ev, "uid", 0) or 0
     if what == "stop":
-        return ET.T1(uid=run.fresh(), k=None, result=act[2] if len(act) > 2 else None)
+        res = act[2] if len(act) > 2 else None
+        if res == "collected":
+            res = sorted(getattr(run, "_last_collected", {}).get(base, []))
+        elif res == "uid":
+            res = base
+        return ET.T1(uid=7 if det else run.fresh(), k=None, result=res)
     k = act[2] if len(act) > 2 else getattr(ev, "k", None)
-    return ET.mk(int(what), run.fresh(), k)
+    return ET.mk(int(what), (base * 8 + 7) if det else run.fresh(), k)
 
 
 async def _interp(run: Run, sdef: dict, ctx: Context, ev: Any, rn: int) -> Any:
@@ -295,7 +302,11 @@ async def _interp(run: Run, sdef: dict, ctx: Context, ev: Any, rn: int) -> Any:
         elif op == "yield":
             await asyncio.sleep(0)
         elif op == "send":
-            sent = ET.mk(act[1], run.fresh(), act[3] if len(act) > 3 else None)
+            if run.spec.get("det_uids"):
+                nsent = sum(1 for a in sdef["script"][: sdef["script"].index(act)] if a[0] == "send")
+                sent = ET.mk(act[1], (uid or 0) * 8 + 1 + nsent, act[3] if len(act) > 3 else None)
+            else:
+                sent = ET.mk(act[1], run.fresh(), act[3] if len(act) > 3 else None)
             run.trace.steps.append(("sent", name, uid, rn, asyncio.get_event_loop().time(),
                                     {"new_uid": sent.uid, "ty": act[1], "target": act[2]}))
             ctx.send_event(sent, step=act[2])
@@ -325,6 +336,7 @@ async def _interp(run: Run, sdef: dict, ctx: Context, ev: Any, rn: int) -> Any:
                                      "got_tys": None if got is None else [ET.TY_ID[type(e)] for e in got]}))
             if got is None:
                 return None
+            run.__dict__.setdefault("_last_collected", {})[uid] = [e.uid for e in got]
             run.trace.steps.append(("collected", name, uid, rn, asyncio.get_event_loop().time(),
                                     {"uids": [e.uid for e in got], "tys": [ET.TY_ID[type(e)] for e in got], "expected": act[1]}))
         elif op == "wait":
@@ -348,6 +360,9 @@ async def _interp(run: Run, sdef: dict, ctx: Context, ev: Any, rn: int) -> Any:
                 raise
         elif op == "store_set":
             await ctx.store.set(act[1], act[2])
+        elif op == "store_mark":
+            # idempotent per input event: re-executing the invocation writes the same value
+            await ctx.store.set(f"m{uid}", getattr(ev, "k", None) if not isinstance(getattr(ev, "k", None), type(None)) else 0)
         elif op == "store_incr":
             async with ctx.store.edit_state() as st:
                 st[act[1]] = st.get(act[1], 0) + 1
@@ -522,6 +537,11 @@ def run_spec(spec: dict, seed: int, replay_actions: list[int] | None = None, max
                 run.trace.outcome = ("error", e)
             run.finished = True
             run.trace.end_time = loop.time()
+            try:
+                stt = await handler.ctx.store.get_state()
+                run.trace.final_store = json.loads(json.dumps(dict(stt.items()) if hasattr(stt, "items") else stt.model_dump(), sort_keys=True, default=repr))  # type: ignore[attr-defined]
+            except Exception as e:
+                run.trace.final_store = f"<unavailable: {type(e).__name__}: {e}>"  # type: ignore[attr-defined]
             if spec.get("snapshot_after_end"):
                 try:
                     run.trace.snapshots.append({"after_end": True, "at_call": len(run.trace.calls), "vtime": loop.time(),
@@ -607,8 +627,12 @@ def _do_external(run: Run, ext: dict, loop: VLoop) -> None:
         # snapshot, then stop this run (to be resumed by the caller)
         try:
             d = h.ctx.to_dict()
+            info = _runner_info(run)
             run.trace.snapshots.append({"at_call": len(run.trace.calls), "vtime": loop.time(), "dict": json.loads(json.dumps(d)),
-                                        "stream_len": len(run.trace.stream), "steps_len": len(run.trace.steps), "stopped": True})
+                                        "stream_len": len(run.trace.stream), "steps_len": len(run.trace.steps), "stopped": True,
+                                        "heap": [(type(t).__name__, getattr(getattr(t, "event", None), "uid", None)) for (_a, _s, t) in info.get("heap", [])],
+                                        "buffer": [type(t).__name__ for t in info.get("buffer", [])],
+                                        "mailbox": [type(t).__name__ for t in info.get("mailbox", [])]})
             loop.create_task(h.cancel_run())
         except Exception as e:
             run.trace.notes.append(f"snapshot failed: {type(e).__name__}: {e}")
